@@ -21,6 +21,44 @@ def prefix_failures(cls, name, frame):
             yield k, 'prefix-rejected-with-' + type(e).__name__, 'prefix of %d/%d bytes is rejected with %s instead of NotEnoughData' % (k, len(frame), type(e).__name__)
 
 
+def virtual_frames(name, rng):
+    """(header bytes, total frame length) for headers that declare large frames - lengths the repository's vectors never
+    reach (around 2^14 and 2^15 for SSL 2.0, the TLS record ceiling, 2^16 and 2^24 for MySQL).  Units that check the
+    declared length against the buffer before looking at the content reject every proper prefix with NotEnoughData, whatever
+    the bytes after the header are."""
+    short = name.rsplit('.', 1)[1]
+    out = []
+    if short == 'SslRecord':
+        for ln in (255, 256, 16383, 16384, 16385, 16684, 32767, rng.randint(257, 32766)):
+            out.append((bytes([0x80 | (ln >> 8), ln & 0xff]), 2 + ln))
+        for ln in (300, 16383, rng.randint(4, 16382)):
+            out.append((bytes([ln >> 8, ln & 0xff, rng.randint(0, 3)]), 3 + ln))
+    elif short == 'TlsRecord':
+        for ln in (255, 256, 16384, 16385, 18432, rng.randint(257, 16383)):
+            out.append((bytes([22, 3, 3, ln >> 8, ln & 0xff]), 5 + ln))
+    elif short == 'MySQLRecord':
+        for ln in (255, 256, 65535, 65536, 70000, rng.randint(257, 200000)):
+            out.append((ln.to_bytes(3, 'little') + bytes([rng.randrange(256)]), 4 + ln))
+    return out
+
+
+def virtual_prefix_failures(cls, name, rng, samples):
+    from cryptoparser.common.exception import NotEnoughData
+    for hdr, total in virtual_frames(name, rng):
+        ks = sorted(set([len(hdr), len(hdr) + 1, total - 1, total - 2] + [rng.randint(len(hdr), total - 1) for _ in range(samples)]))
+        filler = bytes(rng.getrandbits(8) for _ in range(64)) * (total // 64 + 1)
+        for k in ks:
+            buf = hdr + filler[:k - len(hdr)]
+            try:
+                cls.parse_immutable(buf)
+                yield buf, total, 'prefix-accepted', 'the first %d bytes of a frame declared as %d bytes are accepted as a complete record' % (k, total)
+            except NotEnoughData as e:
+                if not 1 <= e.bytes_needed <= total - k:
+                    yield buf, total, 'missing-count', 'header declares %d bytes, %d present: bytes_needed=%d, really missing %d' % (total, k, e.bytes_needed, total - k)
+            except Exception as e:  # pylint: disable=broad-except
+                yield buf, total, 'prefix-rejected-with-' + type(e).__name__, 'header declares %d bytes, %d present: rejected with %s instead of NotEnoughData' % (total, k, type(e).__name__)
+
+
 def reader_failures(impl, cls, frames, chunks):
     status, out, buf, need, needs = impl.reader_loop(cls.parse_mutable, chunks)
     if status != 'RUN':
@@ -64,6 +102,9 @@ def impl_sweep(chk, impl, rng, n_chunkings):
                 evals += 1
                 yield name, pred, {'class': name, 'frame': f.hex(), 'prefix': k, 'predicate': pred}, detail
             evals += len(f)
+        for buf, total, pred, detail in virtual_prefix_failures(cls, name, rng, 6):
+            yield name, pred, {'class': name, 'frame': buf.hex(), 'declared': total, 'prefix': len(buf), 'predicate': 'virtual-prefix'}, detail
+        evals += 10 * len(virtual_frames(name, rng))
         for _ in range(n_chunkings):
             seq = [rng.choice(frames) for _ in range(rng.randint(1, 4))]
             stream = b''.join(seq)
@@ -152,7 +193,19 @@ def replay(path):
     if 'class' in r:
         mod, q = r['class'].rsplit('.', 1)
         cls = sweep.resolve(mod, q)
-        if r.get('predicate', '').startswith('reader'):
+        if r.get('predicate') == 'virtual-prefix':
+            from cryptoparser.common.exception import NotEnoughData
+            buf, total = bytes.fromhex(r['frame']), r['declared']
+            try:
+                cls.parse_immutable(buf)
+                msg = 'accepted'
+            except NotEnoughData as e:
+                msg = None if 1 <= e.bytes_needed <= total - len(buf) else 'bytes_needed=%d, really missing %d' % (e.bytes_needed, total - len(buf))
+            except Exception as e:  # pylint: disable=broad-except
+                msg = 'rejected with %s' % type(e).__name__
+            print('header declares %d bytes, %d present: %s' % (total, len(buf), msg or 'NotEnoughData within the bound'))
+            ok = msg is None
+        elif r.get('predicate', '').startswith('reader'):
             msg = reader_failures(impl, cls, [bytes.fromhex(x) for x in r['frames']], [bytes.fromhex(x) for x in r['chunks']])
             print(msg or 'reader reassembles the stream')
             ok = msg is None
